@@ -28,6 +28,8 @@ if [ $# -eq 0 ]; then
   [ "$rcjson" -ne 0 ] && exit "$rcjson"
   /venv/bin/python "$here/tools/py2v_ord/main.py" --repo "${BIOM_REPO:-/repo}" --out "$here"; rcord=$?   # reorder mode (tools/regen_ord.sh)
   [ "$rcord" -ne 0 ] && exit "$rcord"
+  /venv/bin/python "$here/tools/py2v_wrap/main.py" --repo "${BIOM_REPO:-/repo}" --out "$here"; rcwrap=$?   # wrapper-object mode (tools/regen_wrap.sh)
+  [ "$rcwrap" -ne 0 ] && exit "$rcwrap"
   [ "$rc1" -ne 0 ] && exit "$rc1"
   [ "$rc2" -ne 0 ] && exit "$rc2"
   exit "$rc3"
